@@ -911,7 +911,11 @@ func runBounded(pc *PropCfg, prop, tier, repo, verif string, skip bool) []map[st
 		}
 		cmd := exec.Command("go", targs...)
 		cmd.Dir = pkgDir
-		cmd.Env = append(os.Environ(), "GOFLAGS=-mod=mod", "GOPROXY=off", "GOSUMDB=off", "GOTOOLCHAIN=local", fmt.Sprintf("VERIF_BOUND=%d", bound))
+		// the library under test writes its log files into SENTINEL_LOG_DIR: a directory of this run's own, so that checks
+		// running side by side (the sandbox has 16 cores) do not trip over each other's files
+		logDir := filepath.Join(dir, "logs")
+		os.MkdirAll(logDir, 0o755)
+		cmd.Env = append(os.Environ(), "GOFLAGS=-mod=mod", "GOPROXY=off", "GOSUMDB=off", "GOTOOLCHAIN=local", fmt.Sprintf("VERIF_BOUND=%d", bound), "SENTINEL_LOG_DIR="+logDir)
 		t0 := time.Now()
 		o, _ := cmd.CombinedOutput()
 		os.RemoveAll(dir)
